@@ -79,6 +79,30 @@ RULE = ("two streams from one PRNG. (1) Task construction: @task(**opts, export_
         "(options, exports, raw) records resp. constructions; non-trivial = a job below the root or with a key defined in >= 2 "
         "layers, a construction with >= 1 call")
 
+LEVEL_TEXT = ("Proved in Lean for every parent job, call, key, run mode and every ancestor chain / job tree (no size bound): "
+              "full strength - precedence / precedence_layers / precedence_raw (the value of every key in Job.get_options() resp. "
+              "get_raw_options() is that of the right-most of the layers definition < exported by the parent < call-time < "
+              "scheduler-imposed; rightmost_spec pins the meaning), definition_lowest, call_time_over_inherited; exports_accumulate, "
+              "exports_accumulate_path (induction over the chain below an ancestor), exports_exact, tree_jobs_are_chain_jobs / "
+              "tree_parent_in_tree / tree_exports_monotone (the scheduler's top-down walk of any tree = the chain function at every "
+              "node); inherited_only_exported, unexported_not_inherited, inherit_through (an exported option reaches every descendant "
+              "until a call resets it); forced_no_cache(_chain), forced_prov_false, prov_false_subtree (call-time options cannot "
+              "override cache_scope under cache=False nor prov/cache_scope under a non-recording ancestor); options_evaluated, "
+              "inherited_not_reevaluated, option_jobs_under_parent; well-formedness preservation (evalOptions_wf, jobInfo_wf, "
+              "constructed_calls_wf) so the unique-keys hypotheses are met by anything built from dicts; task API: "
+              "export_options_accumulates, remarks options_drops_exports_note, def_export_cache_note. REFUTED on the current code: "
+              "run_evaluates_options_refuted (a ROOT call with an expression-valued option dies with KeyError in record_job_start; "
+              "finding C27-root-option-expression-crash), with run_evaluates_options_partial (runs whose root call has no "
+              "expression-valued option) and run_crash_iff (exact condition). Tie: Task construction and generated job trees on the "
+              "real Scheduler (controlled executor recording get_options / export_options / get_raw_options / parent / executor of "
+              "every submitted job) against the model's walk, plus the documented precedence as an independent oracle.")
+LEVEL_NOTE = ("partial only in options_evaluated: expression evaluation is modelled on the fragment 'call of a task returning its "
+              "argument, lists, literals' (general evaluation is C01) and that option expressions run under the parent job is in the "
+              "model's walkOpt and checked by the tie, not proved about scheduler.py. Not modelled: dict-valued options, "
+              "_context_override (C26), limits/tags, executor-level config defaults merged after get_options(), PartialTask, "
+              "subrun's re-export of options. The model mirrors the current code including the root-option crash (known finding).")
+TECHNIQUE = "Lean 4 proof on an association-list model of option layers over job trees + differential job trees on the real Scheduler with a recording executor"
+
 GEN_KEYS = ["memory", "vcpus", "x", "y"]
 ALL_KEYS = GEN_KEYS + ["executor", "cache", "cache_scope", "check_valid", "prov"]
 NS = "verif_c27"
@@ -571,11 +595,16 @@ def corpus_trees():
         n("c2-e", {"prov": lit(0)}, children=[n("c2-f")]),
         n("c2-g", ops=[["O", {"prov": call_spec("c2-e1", lit(False))}]], children=[n("c2-h", ops=[["O", {"prov": lit(True)}]])]),
     ])))
-    # expression-valued options at every level; the option jobs run under the PARENT (they do not see the job's own exports)
-    out.append((True, n("c3-r", {"x": call_spec("c3-e1", lit("d"))}, ops=[["X", {"y": call_spec("c3-e2", lit("exp"))}]], children=[
-        n("c3-a", {"memory": call_spec("c3-e3", lit(1)), "x": call_spec("c3-e4", lit(2))}, ops=[["O", {"x": lit(3)}]]),
-        n("c3-b", ops=[["X", {"vcpus": call_spec("c3-e5", call_spec("c3-e6", lit(4)))}]], children=[n("c3-c")]),
-        n("c3-d", ops=[["O", {"memory": list_spec([call_spec("c3-e7", lit(1)), lit(2)]), "executor": call_spec("c3-e8", lit("alt"))}]]),
+    # the finding's witness (root call with an expression-valued option) and the corner that survives (root prov=False, one expression)
+    out.append((True, n("c3-r", ops=[["O", {"memory": call_spec("c3-e1", lit(7))}]], children=[n("c3-a")])))
+    out.append((True, n("c10-r", ops=[["O", {"memory": call_spec("c10-e1", lit(7)), "prov": lit(False)}]], children=[n("c10-a", ops=[["O", {"prov": lit(True)}]])])))
+    out.append((True, n("c11-r", {"x": call_spec("c11-e1", lit("d"))}, ops=[["X", {"y": call_spec("c11-e2", lit("exp"))}]], children=[n("c11-a")])))
+    # expression-valued options at every level below the root; the option jobs run under the PARENT (they do not see the job's own exports)
+    out.append((True, n("c9-r", {"x": lit("d")}, ops=[["X", {"y": lit("exp")}]], children=[
+        n("c9-a", {"memory": call_spec("c9-e3", lit(1)), "x": call_spec("c9-e4", lit(2))}, ops=[["O", {"x": lit(3)}]]),
+        n("c9-b", ops=[["X", {"vcpus": call_spec("c9-e5", call_spec("c9-e6", lit(4))), "x": lit("own")}]], children=[n("c9-c")]),
+        n("c9-d", ops=[["O", {"memory": list_spec([call_spec("c9-e7", lit(1)), lit(2)]), "executor": call_spec("c9-e8", lit("alt"))}]]),
+        n("c9-f", {"prov": call_spec("c9-e9", lit(0))}, children=[n("c9-g", ops=[["O", {"prov": lit(True)}]])]),
     ])))
     # with_export_options, nested, and the synonym cache -> cache_scope
     out.append((True, wx({"cache": lit(False), "memory": lit(9)}, n("c4-r", children=[
@@ -645,7 +674,7 @@ def model_task_result(reply):
 def stream_tasks(ctx):
     gen = Gen(ctx.rng, "t%d-" % ctx.seed)
     cases = list(corpus_tasks())
-    for _ in range(ctx.n(1500, 20000)):
+    for _ in range(ctx.n(1200, 16000)):
         dfn = gen.odict(0, 3, p_special=0.4, api=True)
         defx = gen.odict(1, 2, p_special=0.4, api=True) if ctx.rng.random() < 0.25 else {}
         cases.append((dfn, defx, gen.ops(api=True)))
@@ -776,7 +805,7 @@ def stream_trees(ctx, only=None):
     rng = ctx.rng
     cases = [(u, t, "corpus") for u, t in corpus_trees()] if only is None else only
     if only is None:
-        for i in range(ctx.n(260, 2600)):
+        for i in range(ctx.n(220, 2400)):
             gen = Gen(rng, "g%d-%d-" % (ctx.seed, i))
             depth = rng.choice([1, 2, 2, 3, 3, 4])
             tree = gen.node(depth, [rng.choice([4, 6, 8, 12])])
